@@ -78,7 +78,7 @@ def gen_anomaly_cases(rng, quick):
     a, _ = rand_inst_pair(rng)
     n = rng.choice([8, 9, 20, 30, 60, rng.randint(8, 120)])
     tx_dl = rng.choice([8, 8, 12, 64])
-    p = {'blocksize': rng.choice([0, 1, 2, 5]), 'max_frame_size': rng.choice([n, 200, 4095]), 'stmin': 0,
+    p = {'blocksize': rng.choice([0, 1, 2, 5]), 'max_frame_size': rng.choice([max(n, 30), 200, 4095]), 'stmin': 0,
          'rx_consecutive_frame_timeout': rng.choice([2, 100, 1000])}
     inst = dict(a, params=p)
     rid, ext, pfx = reach(inst)
